@@ -592,9 +592,17 @@ func (g *rgen) stmt(depth int) []rstmt {
 	case "if":
 		l, op, rr := g.cond()
 		s := rstmt{kind: "if", l: l, op: op, r: rr, hasElse: r.bool(), litLeft: rr.path == "" && r.chance(1, 3)}
-		s.then = g.block(depth-1, 1+r.intn(2))
+		// empty blocks are programs too
+		nt, ne := 1+r.intn(2), 1+r.intn(2)
+		if r.chance(1, 6) {
+			nt = 0
+		}
+		if r.chance(1, 8) {
+			ne = 0
+		}
+		s.then = g.block(depth-1, nt)
 		if s.hasElse {
-			s.els = g.block(depth-1, 1+r.intn(2))
+			s.els = g.block(depth-1, ne)
 		}
 		g.count("if " + op)
 		if s.litLeft {
